@@ -98,7 +98,19 @@ def worldOf (j : Json) : Except String World := do
   let usersJ ← argArr j "users"
   let users ← usersJ.mapM (fun u => do
     let id ← u.getObjValAs? Nat "id"
-    let g ← strList (← field u "groups")
+    -- either the normalised list of names, or (preferred) the raw answers of all registered getters, in registration order
+    let g ← match optField u "getters" with
+      | none => strList (← field u "groups")
+      | some (.arr gs) => do
+        let parsed ← gs.toList.mapM (fun gj => do
+          let applies ← gj.getObjValAs? Bool "applies"
+          let a ← match gj.getObjVal? "answer" with
+            | .ok (.str s) => pure (Answer.single s)
+            | .ok (.arr l) => do pure (Answer.many (← l.toList.mapM (fun x => fromJson? x)))
+            | _ => pure Answer.nothing
+          pure (applies, a))
+        pure (foldGetters parsed)
+      | some _ => throw "getters: array expected"
     let o ← match optField u "obj" with
       | none => pure none
       | some v => do pure (some (← objOf v))
